@@ -16,21 +16,20 @@ LEVEL = {
     "C08": ("online checker: names() against the model name list under the same histories, iter().zip(names()) against (variant, name) pairs", "runtime monitor: iterator automaton over operation histories"),
     "C09": ("relational monitor: transcripts of every item compared across the mode product / auto-steering configurations of one declaration; hook log must show every outcome of auto resolution", "runtime monitor: differential transcripts + expansion event log"),
     "C16": ("compile-outcome + relational monitor: the same derive in plain, no_implicit_prelude, hostile-shadowing, no_std and no_std+hostile contexts must build and give identical transcripts", "runtime monitor: differential transcripts across contexts"),
+    "C10": ("compile-outcome monitor + runtime monitors: configuration sweep (every atom alone, pairs, triples, all-but-one, random subsets with random name/vis/struct_name parameters and splits) on 6 enum shapes built with cargo build and an adapter using every enabled item; failures recompiled alone; runtime monitors run over every case; split-vs-joined expansion text compared in the hook log", "runtime monitor over rustc verdicts + expansion event log + runtime oracles"),
+    "C11": ("compile-outcome monitor + three-way discriminant agreement (generator model = compiler `v as repr` = macro's values in the hook log and observable into/try_from/MIN/MAX/iteration order) over the literal-spelling / implicit-discriminant / limit / size / foreign-attribute catalogue for each repr", "runtime monitor over rustc verdicts + expansion event log + runtime oracles"),
+    "C12": ("compile-outcome monitor: mutation catalogue of out-of-domain declarations, each must fail to compile (batch screen, every apparent acceptance recompiled alone) while its control copy without the derive compiles", "runtime monitor over rustc verdicts (two-stage, control copies)"),
+    "C13": ("compile-outcome monitor: catalogue of invalid enum-level and variant-level attributes on a gapless and a with-holes enum, each must fail to compile (two-stage confirmation)", "runtime monitor over rustc verdicts (two-stage)"),
+    "C14": ("compile-outcome monitor: all permutations of small enums x sorted flags, accept/reject compared with the model's strictly-ascending verdict, should-fail items with control copies", "runtime monitor over rustc verdicts against a reference model"),
+    "C15": ("privacy / name-resolution probes (positive must compile, negative must fail, each negative an item of its own) from the defining module, its parent, the crate root and an external crate for every enum visibility and item vis/name/struct_name, plus a scan of the hook log's expansion text for every non-private fn/const/struct", "runtime monitor over rustc verdicts + expansion event log"),
+    "C17": ("expansion event log compared across repeated modules (fresh RandomState per HashMap) and fresh rustc processes (fresh per-process seeds): one distinct output text per input text", "runtime monitor: expansion event log across processes"),
+    "C19": ("compile-time ascription probes (const contexts, fn-pointer coercions, Result<E, ()> and associated-type ascriptions, iterator trait bounds) for every mode / shape case", "runtime monitor over rustc verdicts of ascription probes"),
     "C18": ("relational monitor: transcripts compared across permuted declaration orders and every admissible repr of one value->name map", "runtime monitor: differential transcripts"),
 }
 
 NOTE = "held on the executions observed: sampled declarations/configurations with a complete oracle per execution; trusted: rustc, Miri, the generator's model (cross-checked against `v as repr`), the adapter glue"
 
-PENDING = {
-    "C10": "check not built yet (configuration sweep, group cfg) - planned, see DESIGN.md section 4",
-    "C11": "check not built yet (declaration-domain sweep, group dom)",
-    "C12": "check not built yet (should-fail declarations, group rej)",
-    "C13": "check not built yet (should-fail attributes, group rej)",
-    "C14": "check not built yet (sorted permutations, groups rej/acc)",
-    "C15": "check not built yet (visibility probes, group vis)",
-    "C17": "check not built yet (expansion determinism, group det)",
-    "C19": "check not built yet (signature probes, group sig)",
-}
+PENDING = {}
 
 
 def main():
